@@ -236,16 +236,22 @@ func runC02(r *core.Run) {
 	// first use under contention: every encoder's very first calls come from eight goroutines
 	{
 		probe := []float32{1, 0.5, 0.25, 0.001, 0.9999, 2, 0}
-		firstUseBurst(8, strings.Contains(r.Variant, "stagger") || r.Variant == "", func(g int) {
-			for i := range encs {
-				e := &encs[(i+g)%len(encs)]
-				for _, x := range probe {
-					if bad, kind, msg, _ := c02CheckPoint(e, x); bad {
-						r.Violate("point", e.Name+"/"+kind+"/first-use", msg+" (among the first calls of the process, eight goroutines at once)", c02Case{e.Name, math.Float32bits(x), fmt.Sprint(x), 0})
-					}
+		check := func(e *c02Enc) {
+			for _, x := range probe {
+				if bad, kind, msg, _ := c02CheckPoint(e, x); bad {
+					r.Violate("point", e.Name+"/"+kind+"/first-use", msg+" (among the first calls of the process, eight goroutines at once)", c02Case{e.Name, math.Float32bits(x), fmt.Sprint(x), 0})
 				}
 			}
-		})
+		}
+		if strings.Contains(r.Variant, "stagger") || r.Variant == "" {
+			firstUseBurst(8, true, func(g int) {
+				for i := range encs {
+					check(&encs[i])
+				}
+			})
+		} else {
+			firstUsePhases(8, len(encs), func(g, ph int) { check(&encs[ph]) })
+		}
 		r.AddEvals(int64(8 * len(encs) * len(probe)))
 		if isBurst(r.Variant) {
 			return
